@@ -5,3 +5,9 @@ From Coq Require Export String.
 Inductive leaf := Ret (q : Q) | Asg (q : Q) | Rej | Unset.
 (* state guards at the head of Recipe methods *)
 Inductive stage_guard := GStageExists | GStageOpen | GStageMismatch | GNameIsAll.
+(* outcome of one cell of the symbolically executed conversion table (translator/symex.py):
+   the call raises, or returns  coef * q^eq * mw^emw * dens^ed * act^ea *)
+Inductive cell := CRaise | CVal (coef : Q) (eq emw ed ea : Z).
+(* association list lookup used to state that a generated prefix table equals the model's *)
+Fixpoint assoc (k : string) (l : list (string * Q)) : option Q :=
+  match l with [] => None | (k', v) :: t => if String.eqb k k' then Some v else assoc k t end.
